@@ -53,6 +53,12 @@ for sid in sorted(os.listdir(os.path.join(ROOT, 'seeded'))):
 table = '| id | change | needs | result of `./check %s` | deciding obligation / reason |\n|---|---|---|---|---|\n' % '<property>' + '\n'.join(rows)
 if harmless:
     table += '\n\nHarmless (behaviour-preserving) changes written by the same sub-agents - the checks must not raise an alarm:\n\n| id | change | result |\n|---|---|---|\n' + '\n'.join(harmless)
+if harmless:
+    ht = {}
+    for h in harmless:
+        k = h.rsplit('|', 2)[1].strip().split(' (')[0]
+        ht[k] = ht.get(k, 0) + 1
+    table += '\n\nHarmless tally: ' + ', '.join('%s %d' % kv for kv in sorted(ht.items())) + ' (of %d).' % len(harmless)
 table += '\n\nTally: ' + ', '.join('%s %d' % kv for kv in sorted(tally.items())) + ' (of %d).' % len(rows)
 p = os.path.join(ROOT, 'DESIGN.md')
 s = open(p).read()
